@@ -126,7 +126,7 @@ def oracle(ctx):
         nc = rng.randrange(1, 3)
         ba = rng.choice([(), (), (2,)])
         mode = rng.choice(["none", "E", "EM"])
-        kind = rng.choice(["dense", "matrix-free", "composed"])
+        kind = rng.choice(["dense", "matrix-free", "composed", "product"])
         a = torch.tensor(0.7, dtype=dtype, requires_grad=True)
         Bm = (0.3 * torch.randn(*ba, n, n, dtype=dtype)).requires_grad_()
         dv = (2.0 + torch.rand(n, dtype=torch.float64)).to(dtype).requires_grad_()
@@ -137,8 +137,16 @@ def oracle(ctx):
         E = (-0.3 * torch.rand(nc, dtype=torch.float64)).to(torch.float64 if e_real else dtype).requires_grad_() if mode != "none" else None
         S = (0.3 * torch.randn(n, n, dtype=dtype)).requires_grad_()
 
-        def dense_A():
+        def dense_A0():
             return a * Bm + torch.diag_embed(dv)
+
+        def dense_Q():
+            return torch.eye(n, dtype=dtype) + 0.2 * Bm
+
+        def dense_A():
+            # "product": a matrix-free factor times a dense factor (the adjoint of a product reverses the factors;
+            # seeded defect C02/3)
+            return dense_A0() @ dense_Q() if kind == "product" else dense_A0()
 
         def dense_M():
             return S @ S.transpose(-2, -1).conj() + torch.eye(n, dtype=dtype)
@@ -148,6 +156,8 @@ def oracle(ctx):
                 return xt.LinearOperator.m(dense_A(), is_hermitian=False)
             if kind == "matrix-free":
                 return MVOp(a, Bm, dv, False)
+            if kind == "product":
+                return MVOp(a, Bm, dv, False).matmul(xt.LinearOperator.m(dense_Q(), is_hermitian=False))
             return MVOp(a * 0.5, Bm, dv * 0.5, False) + xt.LinearOperator.m(0.5 * dense_A(), is_hermitian=False)
 
         def ref():
